@@ -56,9 +56,9 @@ PROPS["C03"] = {
              "then re-executed under the same sigma with ONE fault at storage call k for every k<=N (N<=12 quick / 40 thorough; otherwise a tape-chosen sample of that many positions) x kinds {transient, persistent, ctx}. "
              "mode engine: CheckRelationTuple; mode batch: BatchCheck of the duplicated query (every entry checked); mode sql: the fault is injected at the k-th SQL STATEMENT of the check at the driver seam, below pop/popx/sqlcon and keto's persister (io / busy / badconn / ctx; a legally masked fault - database/sql retry, pop retry after a sleep on the simulated clock - passes). Oracle: result carries an error or equals D; never allowed when D=denied; an entry with an error never says allowed. "
              "non-trivial = fault-free run issues >=2 storage calls; distinct = distinct hash of (config, tuples, query). exhaustive over k per case when N<=limit, cases sampled."),
-    "probes": ["fault_transient", "fault_persistent", "fault_ctx", "fault_sql_io", "fault_sql_busy", "fault_sql_badconn", "fault_sql_ctx", "faults_masked", "outcome_error", "outcome_same", "base_allowed", "base_denied", "probe_denied_with_negation", "cases_all_positions"],
+    "probes": ["fault_transient", "fault_persistent", "fault_ctx", "fault_conflict", "fault_sql_io", "fault_sql_busy", "fault_sql_badconn", "fault_sql_ctx", "faults_masked", "outcome_error", "outcome_same", "base_allowed", "base_denied", "probe_denied_with_negation", "cases_all_positions"],
     "real": REAL_E, "stub": STUB_E + ["storage failures: injected at the relationtuple.Manager / Traverser seam (L1); the SQL-driver seam (L2) variant is a separate mode"],
-    "fault_kinds": {"transient": "k-th storage call returns an error instead of calling through", "persistent": "k-th and every later call fail", "ctx": "request context cancelled at the k-th call, which returns context.Canceled"},
+    "fault_kinds": {"transient": "k-th storage call returns an error instead of calling through", "persistent": "k-th and every later call fail", "conflict": "k-th call fails with sqlcon.ErrConcurrentUpdate (retryable kind)", "ctx": "request context cancelled at the k-th call, which returns context.Canceled"},
     "assumptions": ["fault-free answer of the same schedule is the reference (property statement)", "limits non-binding by R1's criterion", "faults are fail-stop at the storage API"],
 }
 
@@ -73,7 +73,7 @@ PROPS["C15"] = {
              "non-trivial = reference derivation touches >=2 hops/rewrite edges; distinct = hash of (config, tuples, query, depth, width)."),
     "probes": ["fault_cancel", "fault_transient", "fault_persistent", "probe_rewrite_cycle", "probe_wider_than_limit", "probe_drained_after_return"],
     "real": REAL_E, "stub": STUB_E,
-    "fault_kinds": {"cancel": "request context cancelled between two storage calls", "transient": "k-th storage call fails", "persistent": "k-th and all later storage calls fail"},
+    "fault_kinds": {"cancel": "request context cancelled between two storage calls", "transient": "k-th storage call fails", "persistent": "k-th and all later storage calls fail", "conflict": "k-th storage call fails with sqlcon.ErrConcurrentUpdate (retryable kind)"},
     "assumptions": ["the bound B is deliberately loose: it catches unbounded growth, not constant factors", "when a result and the cancellation are ready in the same quiescence round, either outcome is accepted (Go's select is not seedable)"],
 }
 
@@ -220,7 +220,7 @@ PROPS["C05"] = {
              "mode crash / crash-wal: file-backed SQLite (rollback journal / WAL); at every statement k all connections die and the database files are copied as a kill -9 would leave them; the copy is reopened: state in {before} (the commit had not run), and after a crash right after the acknowledgement: exactly after. "
              "mode isolation / isolation-wal (tier T): a writer toggling transact(insert X, delete Y) is parked before each of its statements while readers (REST list, gRPC list with paging, two checks) run to completion; the recorded history (event sequence numbers) is checked with porcupine against a two-state model. "
              "non-trivial = request touches >= 2 tuples (isolation: at least one read overlapped the transaction); distinct = hash of request shape and pre-state."),
-    "probes": ["probe_multi_chunk_insert", "probe_multi_chunk_delete", "probe_direct_manager_call", "failed_atomically", "invalid_positions", "fault_crash", "fault_crash_after_ack", "reads_during_transaction", "porcupine_ok"],
+    "probes": ["probe_multi_chunk_insert", "probe_multi_chunk_delete", "probe_direct_manager_call", "failed_atomically", "invalid_positions", "invalid_positions_manager", "fault_crash", "fault_crash_after_ack", "reads_during_transaction", "porcupine_ok"],
     "real": REAL_S + ["SQLite file locking, rollback journal and WAL recovery (file-backed database in crash / isolation modes)", "porcupine v1.3.0 linearizability checker (isolation modes)"], "stub": STUB_S + ["crash = death of every connection + copy of the database files at that instant; power loss / torn pages / fsync lies are below any keto code and not modelled"],
     "fault_kinds": {"io": "statement returns an I/O error", "busy": "database is locked (pop retries)", "badconn": "driver.ErrBadConn", "full": "SQLITE_FULL", "ctx": "context.Canceled", "crash": "all connections die at statement k, files snapshotted"},
     "assumptions": ["fail-stop faults only: a 'commit succeeded but the ack was lost' fault without a crash is not injected (no implementation can satisfy 'unchanged when an error was returned' under it)", "isolation observed is SQLite's; keto's contribution (one transaction, every statement on the ctx connection) is what the monitor checks"],
@@ -246,16 +246,18 @@ PROPS["C08"] = {
 
 PROPS["C09"] = {
     "level": "exploration",
-    "budget_s": {"quick": 70, "thorough": 2400},
-    "modes": [{"name": "", "runs": {"quick": 5000, "thorough": 150000}, "chunk": 250}],
+    "budget_s": {"quick": 150, "thorough": 3000},
+    "modes": [{"name": "", "runs": {"quick": 5000, "thorough": 150000}, "chunk": 250},
+              {"name": "faults", "runs": {"quick": 1000, "thorough": 40000}, "chunk": 100}],
     "rule": ("one run = a rewrite-free store (random edges, chains with shortcuts so that one subject set is reachable at two depths, cycles, wide nodes, one > 100 children case per 200 runs), a subject set, global depth g in {1,2,3,4,5,8,50}, request depth in {-2,0,1,2,3,4,5,7,100}, "
              "engine-side page size 1-3 or default; 6 (quick) / 24 (thorough) executions on different storage orders (which path reaches a node first). Oracles: every parent->child edge is a stored relationship; a subject set is expanded at most once; levels <= effective depth; termination; "
              "every subject within (effective depth - 1) hops is in the tree and nothing unreachable is; with depth not binding the subject-id leaves equal the subjects for which the reference AND the real check engine say allowed, and REST / gRPC expand equal the engine tree. "
-             "This is the thinnest simulation target of the claimed set: one randomness source (storage order), no faults, no concurrency. non-trivial = some subject is >= 2 hops away; distinct = hash of (tuples, set, depths)."),
-    "probes": ["probe_depth_binding", "probe_depth_not_binding", "probe_tree_depends_on_storage_order", "probe_over_100_children"],
+             "mode 'faults': after every fault-free expansion the same expansion is repeated on the same stored state with the k-th storage call failing (every k when the expansion makes <= 6 calls, else 6 sampled; transient, persistent, serialization-conflict or context cancellation): a tree that is returned without an error must equal the fault-free tree. "
+             "This is the thinnest simulation target of the claimed set: the randomness sources are the storage order and the fault position; no concurrency. non-trivial = some subject is >= 2 hops away; distinct = hash of (tuples, set, depths)."),
+    "probes": ["probe_depth_binding", "probe_depth_not_binding", "probe_tree_depends_on_storage_order", "probe_over_100_children", "fault_surfaced_as_error"],
     "probe_min_runs": 4000,
     "real": ["keto internal/expand.Engine (sequential), internal/x/graph visited set, expand REST/gRPC handlers, Mapper.ToTree, internal/persistence/sql GetRelationTuples paging, SQLite"], "stub": STUB_E,
-    "fault_kinds": {},
+    "fault_kinds": {"transient": "k-th storage call of the expansion returns an error", "persistent": "k-th and every later call fail", "conflict": "k-th call fails with sqlcon.ErrConcurrentUpdate (the retryable serialization failure)", "ctx": "request context cancelled at the k-th call"},
     "assumptions": ["'within the effective depth' is read as: a subject k hops away must appear when k <= effective depth - 1 (the tree has at most 'effective depth' levels)"],
 }
 
@@ -303,12 +305,16 @@ PROPS["C19"] = {
     "modes": [{"name": "opl-file", "runs": {"quick": 2000, "thorough": 50000}, "chunk": 250},
               {"name": "opl-dir", "runs": {"quick": 3000, "thorough": 80000}, "chunk": 250},
               {"name": "legacy-file", "runs": {"quick": 1500, "thorough": 40000}, "chunk": 250},
-              {"name": "legacy-dir", "runs": {"quick": 3000, "thorough": 80000}, "chunk": 250}],
+              {"name": "legacy-dir", "runs": {"quick": 3000, "thorough": 80000}, "chunk": 250},
+              {"name": "interleave", "runs": {"quick": 3000, "thorough": 100000}, "chunk": 250}],
     "rule": ("one run = a simulated directory of 1-3 watched files (OPL .ts, or legacy .json/.yaml/.yml/.toml) and 6-40 (quick) / 6-90 (thorough) tape-chosen steps: edits (replace, truncate-then-write in chunks, remove, re-create) with versions that are valid, syntactically broken, type-incorrect, empty or torn; "
              "deliveries of pending notifications in any order with faults (duplicate, torn read, read error, dropped - never the last one of a file, coalescing at the end); samples. Each delivery is turned, at that instant, into the watcherx event the real file watcher would produce for the file's content at that instant and sent down the real unbuffered channel into the real startEventHandler loop; "
              "a third of the deliveries race with a concurrent reader goroutine. Every valid OPL version also declares a stable namespace whose permission means 'member' in even and 'not member' in odd versions; after every delivery a check through the real engine must decide by the visible version. Oracle R5 at every sample and after every delivery: for each file the visible namespaces (manager listing, lookups and GET /namespaces) are exactly those of ONE valid version delivered so far (none only before the first valid version or after a delivered removal); "
-             "after faults stop and everything pending is delivered, each file's visible namespaces are those of its current valid content (bounded liveness: one quiescence round). non-trivial = history longer than 8 events; distinct = hash of the history."),
-    "probes": ["delivered_valid", "delivered_syntax", "delivered_type", "delivered_torn", "delivered_remove", "concurrent_reads", "samples", "engine_checks", "converged_files", "probe_multi_file", "fault_duplicate", "fault_torn-read", "fault_read-error", "fault_dropped", "fault_partial-state-delivered"],
+             "after faults stop and everything pending is delivered, each file's visible namespaces are those of its current valid content (bounded liveness: one quiescence round). "
+             "mode 'interleave' (tier K, lock-level scheduling): 1-5 reloads (valid versions, some duplicated) are handed to the real event loop while 1-3 reader goroutines make 2-5 reads each (manager listing, GetNamespaceByName, GET /namespaces through the real router). Every Lock/RLock/Unlock/RUnlock of keto is a scheduling point (tools/lockyield build overlay + sim/simlock seam): "
+             "a goroutine parks before each acquisition and after each release, acquisitions are TryLock under the controller, and the tape picks who proceeds, so a reload and a read interleave between any two lock operations. Oracles: no deadlock, nobody stuck, the history of reloads and reads (stamped with the scheduler's logical clock) is linearizable against the single-copy model (porcupine), and after the last reload every accessor shows the last version. "
+             "non-trivial = history longer than 8 events (interleave: >= 4 real scheduling choices); distinct = hash of the history."),
+    "probes": ["delivered_valid", "delivered_syntax", "delivered_type", "delivered_torn", "delivered_remove", "concurrent_reads", "samples", "engine_checks", "converged_files", "probe_multi_file", "fault_duplicate", "fault_torn-read", "fault_read-error", "fault_dropped", "fault_partial-state-delivered", "lock_acquisitions_scheduled", "schedule_choices", "porcupine_ok"],
     "real": ["keto internal/driver/config: oplConfigWatcher, NamespaceWatcher, memoryNamespaceManager, startEventHandler loop (through the verif-tagged hook file), internal/schema parser and type checker, ghodss/yaml, go-toml, encoding/json, namespacehandler GET /namespaces through the real read router"],
     "stub": ["fsnotify, the OS file system and watcherx's watcher goroutines: replaced by the simulated directory + notification queue (events built with watcherx's own event types)", "Config key changes (resetNamespaceManager) and websocket/http/base64 locations: out of scope, the property speaks about file changes"],
     "fault_kinds": {"duplicate": "a notification is delivered twice", "torn-read": "the event carries a strict prefix of the file (opl/json only: a prefix never parses there)", "read-error": "watcherx ErrorEvent instead of content", "dropped": "a notification is lost (never the last one of a file)", "partial-state-delivered": "delivery between truncate and the last chunk"},
